@@ -35,6 +35,10 @@ type GNode struct {
 	Any    interface{}
 	Attrs  map[string]interface{}
 	Leaf   *GLeaf
+	// pointers whose pointee is itself a reference (shared between nodes)
+	PS *[]*GNode
+	PM *map[string]int
+	PP **GNode
 	// maps whose VALUES are slices / maps that other fields share
 	Groups  map[string][]*GNode
 	Buckets map[string]map[string]int
@@ -60,6 +64,9 @@ type GRoot struct {
 	// user-declared pointers that may alias one another (shared *int)
 	Count *int
 	Other *int
+	// back-references to the config root itself (through a slice: a config
+	// type cannot contain itself through a struct-field pointer)
+	Self []*GRoot
 }
 
 // ---- descriptors ----
@@ -93,6 +100,9 @@ type NodeDesc struct {
 	Attrs    map[string]AnyDesc `json:"attrs,omitempty"`
 	Leaf     *LeafDesc          `json:"leaf,omitempty"`
 	SkipP1   int                `json:"skip_p1,omitempty"` // node index + 1 for the dials:"-" field, 0 = nil
+	PSP1     int                `json:"ps_p1,omitempty"`   // pool index + 1 of a shared *[]*GNode
+	PMP1     int                `json:"pm_p1,omitempty"`   // pool index + 1 of a shared *map[string]int
+	PPP1     int                `json:"pp_p1,omitempty"`   // pool index + 1 of a shared **GNode
 	Groups   map[string]int     `json:"groups,omitempty"`  // key -> node whose Kids slice is the (shared) value
 	Buckets  map[string]int     `json:"buckets,omitempty"` // key -> tag map pool index (shared with leaves)
 }
@@ -102,6 +112,9 @@ type GraphDesc struct {
 	NodeMaps []map[string]int `json:"node_maps,omitempty"`
 	TagMaps  []map[string]int `json:"tag_maps,omitempty"`
 	Ints     []int            `json:"ints,omitempty"`
+	PSlices  [][]int          `json:"p_slices,omitempty"` // pool of *[]*GNode (node indices)
+	PMaps    []int            `json:"p_maps,omitempty"`   // pool of *map[string]int (tag map indices)
+	PPtrs    []int            `json:"p_ptrs,omitempty"`   // pool of **GNode (node indices)
 }
 
 type RootDesc struct {
@@ -113,6 +126,7 @@ type RootDesc struct {
 	Any     AnyDesc `json:"any"`
 	Count   int     `json:"count"` // index into the shared *int pool, -1 = nil
 	Other   int     `json:"other"`
+	SelfRef bool    `json:"self_ref,omitempty"` // Self holds a pointer to this very root
 }
 
 type C03Case struct {
@@ -188,6 +202,21 @@ func genGraph(t *rapid.T) GraphDesc {
 	for i, k := 0, rapid.IntRange(0, 2).Draw(t, "ints"); i < k; i++ {
 		g.Ints = append(g.Ints, rapid.IntRange(0, 99).Draw(t, "int"))
 	}
+	if n > 0 {
+		for i, k := 0, rapid.IntRange(0, 2).Draw(t, "pslices"); i < k; i++ {
+			var idx []int
+			for j, l := 0, rapid.IntRange(0, 3).Draw(t, "ps_len"); j < l; j++ {
+				idx = append(idx, genNodeRef(t, n, "ps_el"))
+			}
+			g.PSlices = append(g.PSlices, idx)
+		}
+		for i, k := 0, rapid.IntRange(0, 2).Draw(t, "pptrs"); i < k; i++ {
+			g.PPtrs = append(g.PPtrs, genNodeRef(t, n, "pp_el"))
+		}
+	}
+	for i, k := 0, rapid.IntRange(0, 2).Draw(t, "pmaps"); i < k && len(g.TagMaps) > 0; i++ {
+		g.PMaps = append(g.PMaps, rapid.IntRange(0, len(g.TagMaps)-1).Draw(t, "pm_el"))
+	}
 	for i := 0; i < n; i++ {
 		nd := NodeDesc{Next: genNodeRef(t, n, "next"), Pair: [2]int{genNodeRef(t, n, "pair0"), genNodeRef(t, n, "pair1")}, ByName: -1, KidsOf: -1}
 		nd.Duo = [2]int{genNodeRef(t, n, "duo0"), genNodeRef(t, n, "duo1")}
@@ -207,6 +236,15 @@ func genGraph(t *rapid.T) GraphDesc {
 			nd.ByName = rapid.IntRange(0, nm-1).Draw(t, "byname")
 		}
 		nd.Any = genAny(t, n, nm, i, "any")
+		if len(g.PSlices) > 0 && rapid.Bool().Draw(t, "has_ps") {
+			nd.PSP1 = rapid.IntRange(0, len(g.PSlices)-1).Draw(t, "ps") + 1
+		}
+		if len(g.PMaps) > 0 && rapid.Bool().Draw(t, "has_pm") {
+			nd.PMP1 = rapid.IntRange(0, len(g.PMaps)-1).Draw(t, "pm") + 1
+		}
+		if len(g.PPtrs) > 0 && rapid.Bool().Draw(t, "has_pp") {
+			nd.PPP1 = rapid.IntRange(0, len(g.PPtrs)-1).Draw(t, "pp") + 1
+		}
 		if rapid.IntRange(0, 3).Draw(t, "has_groups") == 0 {
 			nd.Groups = map[string]int{}
 			for j, k := 0, rapid.IntRange(1, 3).Draw(t, "groups_len"); j < k; j++ {
@@ -251,6 +289,7 @@ func genRoot(t *rapid.T, g GraphDesc, label string, allowAny bool) RootDesc {
 		r.Count = rapid.IntRange(-1, len(g.Ints)-1).Draw(t, label+"_count")
 		r.Other = rapid.IntRange(-1, len(g.Ints)-1).Draw(t, label+"_other")
 	}
+	r.SelfRef = rapid.IntRange(0, 2).Draw(t, label+"_self") == 0
 	if rapid.Bool().Draw(t, label+"_has_all") {
 		r.HasAll = true
 		for j, k := 0, rapid.IntRange(0, 4).Draw(t, label+"_all_len"); j < k; j++ {
@@ -295,6 +334,9 @@ func genC03(t *rapid.T) C03Case {
 // ---- instantiate a graph ----
 
 type graphInst struct {
+	pslices  []*[]*GNode
+	pmaps    []*map[string]int
+	pptrs    []**GNode
 	nodes    []*GNode
 	nodeMaps []map[string]*GNode
 	tagMaps  []map[string]int
@@ -445,6 +487,37 @@ func instantiate(g GraphDesc) *graphInst {
 			}
 		}
 	}
+	// pass 1c-0: pools of pointers to references, shared between nodes
+	for _, idx := range g.PSlices {
+		sl := make([]*GNode, 0, len(idx))
+		for _, k := range idx {
+			sl = append(sl, gi.node(k))
+		}
+		gi.pslices = append(gi.pslices, &sl)
+	}
+	for _, k := range g.PMaps {
+		if k >= 0 && k < len(gi.tagMaps) {
+			m := gi.tagMaps[k]
+			gi.pmaps = append(gi.pmaps, &m)
+		} else {
+			gi.pmaps = append(gi.pmaps, nil)
+		}
+	}
+	for _, k := range g.PPtrs {
+		np := gi.node(k)
+		gi.pptrs = append(gi.pptrs, &np)
+	}
+	for i, nd := range g.Nodes {
+		if k := nd.PSP1 - 1; k >= 0 && k < len(gi.pslices) {
+			gi.nodes[i].PS = gi.pslices[k]
+		}
+		if k := nd.PMP1 - 1; k >= 0 && k < len(gi.pmaps) {
+			gi.nodes[i].PM = gi.pmaps[k]
+		}
+		if k := nd.PPP1 - 1; k >= 0 && k < len(gi.pptrs) {
+			gi.nodes[i].PP = gi.pptrs[k]
+		}
+	}
 	// pass 1c: maps whose values are other nodes' Kids slices / pooled tag maps
 	for i, nd := range g.Nodes {
 		if nd.Groups != nil {
@@ -518,6 +591,9 @@ func (gi *graphInst) root(r RootDesc) *GRoot {
 	}
 	if r.Other >= 0 && r.Other < len(gi.ints) {
 		out.Other = gi.ints[r.Other]
+	}
+	if r.SelfRef {
+		out.Self = []*GRoot{out, out}
 	}
 	return out
 }
@@ -816,6 +892,9 @@ func runC03(c C03Case) vrt.Verdict {
 			return lv
 		}
 		want := &GRoot{All: def.All, Index: def.Index, Pair: def.Pair, Count: def.Count, Other: def.Other}
+		if c.Def.SelfRef {
+			want.Self = []*GRoot{want, want} // the defaults point back at themselves; so must the result
+		}
 		if lay.Count != nil {
 			want.Count = lay.Count
 		}
@@ -889,7 +968,7 @@ func (l *lazySource) Value(_ context.Context, t *dials.Type) (reflect.Value, err
 func TestC03Graphs(t *testing.T) {
 	vrt.Check(t, vrt.Prop[C03Case]{
 		ID: "C03", Name: "graphs",
-		Rule: "object graphs of 0..8 nodes over the fixed family GNode/GLeaf/GRoot with arbitrary edges through struct-field pointers (one of them an exported field tagged dials:\"-\", which stacking skips but the copy must still reproduce), slices, arrays, maps, maps whose values are slices / maps shared with other fields, shared maps / *int, and interface payloads (typed nil map / slice / pointer, *GNode, GNode by value, map[string]*GNode, []*GNode, [1]*GNode, []interface{}, a node's own Attrs map); " +
+		Rule: "object graphs of 0..8 nodes over the fixed family GNode/GLeaf/GRoot with arbitrary edges through struct-field pointers (one of them an exported field tagged dials:\"-\", which stacking skips but the copy must still reproduce), slices, arrays, maps, maps whose values are slices / maps shared with other fields, shared maps / *int, pointers to slices / maps / pointers shared between nodes, back-references to the config root itself, and interface payloads (typed nil map / slice / pointer, *GNode, GNode by value, map[string]*GNode, []*GNode, [1]*GNode, []interface{}, a node's own Attrs map); " +
 			"copied directly by the deep copier (root *GNode or *GRoot), by Config with the graph in defaults and in a source value, and by a watcher re-stack; oracle: terminates, reflect.DeepEqual, and the in->out map of pointer/map references in fields, elements and map values is a function with a fresh range; " +
 			"non-trivial = the graph has a cycle or a reference with in-degree >= 2; distinct = distinct case JSON",
 		Assumptions: []string{
